@@ -397,4 +397,99 @@ theorem subList_refl : (ts : List Ty) → declarableList ts = true → SubList t
     exact .cons (sub_refl t h.1) (subList_refl ts h.2)
 end
 
+/-! ## `Bind::mix` key by key -/
+theorem get_insert_same (b : Bnd) (k : String) (v : Ty) : (b.insert k v).get k = some v := by
+  induction b with
+  | nil => simp [Bnd.insert, Bnd.get]
+  | cons e rest ih =>
+    obtain ⟨k', v'⟩ := e
+    simp only [Bnd.insert]
+    by_cases h : k' = k
+    · simp [h, Bnd.get]
+    · simp [h, Bnd.get, ih]
+
+theorem get_insert_other (b : Bnd) (k k2 : String) (v : Ty) (h : k ≠ k2) : (b.insert k v).get k2 = b.get k2 := by
+  induction b with
+  | nil => simp [Bnd.insert, Bnd.get, h]
+  | cons e rest ih =>
+    obtain ⟨k', v'⟩ := e
+    simp only [Bnd.insert]
+    by_cases h1 : k' = k
+    · subst h1; simp [Bnd.get, h]
+    · by_cases h2 : k' = k2
+      · subst h2; simp [h1, Bnd.get]
+      · simp [h1, h2, Bnd.get, ih]
+
+/-- the join two bindings must have at a key -/
+def joinAt (x y : Option Ty) : Option (Option Ty) :=
+  match x, y with
+  | some a, some b => (commonType a b).map some
+  | some a, none => some (some a)
+  | none, some b => some (some b)
+  | none, none => some none
+
+theorem mix_get (self other res : Bnd) (hnd : (other.map Prod.fst).Nodup) (h : mix self other = some res) (k : String) :
+    joinAt (Bnd.get self k) (Bnd.get other k) = some (Bnd.get res k) := by
+  induction other generalizing self with
+  | nil =>
+    simp [mix] at h; subst h
+    cases hs : Bnd.get self k <;> simp [joinAt, Bnd.get]
+  | cons e rest ih =>
+    obtain ⟨k1, v1⟩ := e
+    simp only [List.map_cons, List.nodup_cons] at hnd
+    have hrest : ∀ k', k' = k1 → Bnd.get rest k' = none := by
+      intro k' hk; subst hk
+      have : ∀ (r : Bnd), k' ∉ r.map Prod.fst → Bnd.get r k' = none := by
+        intro r
+        induction r with
+        | nil => intro _; rfl
+        | cons e2 r2 ih2 =>
+          obtain ⟨k2, v2⟩ := e2
+          intro hn
+          simp only [List.map_cons, List.mem_cons, not_or] at hn
+          simp [Bnd.get, Ne.symm hn.1, ih2 hn.2]
+      exact this rest hnd.1
+    simp only [mix] at h
+    by_cases hk : k1 = k
+    · subst hk
+      simp only [Bnd.get, if_true]
+      cases hs : Bnd.get self k1 with
+      | some existing =>
+        simp only [hs] at h
+        cases hc : commonType existing v1 with
+        | none => simp [hc] at h
+        | some c =>
+          simp only [hc] at h
+          have := ih (self.insert k1 c) hnd.2 h
+          rw [get_insert_same, hrest k1 rfl] at this
+          simp only [joinAt] at this ⊢
+          simp [hc]; simpa using this
+      | none =>
+        simp only [hs] at h
+        have := ih (self.insert k1 v1) hnd.2 h
+        rw [get_insert_same, hrest k1 rfl] at this
+        simp only [joinAt] at this ⊢
+        simpa using this
+    · simp only [Bnd.get, hk, if_false]
+      cases hs : Bnd.get self k1 with
+      | some existing =>
+        simp only [hs] at h
+        cases hc : commonType existing v1 with
+        | none => simp [hc] at h
+        | some c =>
+          simp only [hc] at h
+          have := ih (self.insert k1 c) hnd.2 h
+          rwa [get_insert_other _ _ _ _ hk] at this
+      | none =>
+        simp only [hs] at h
+        have := ih (self.insert k1 v1) hnd.2 h
+        rwa [get_insert_other _ _ _ _ hk] at this
+
+theorem commonType_unknown_right (a : Ty) : commonType a .unknown = some a := by
+  cases a <;> simp [commonType, Ty.beq]
+
+theorem commonType_unknown_left (b : Ty) : commonType .unknown b = some b := by
+  cases b <;> simp [commonType, Ty.beq]
+
+
 end XrayModel
